@@ -9,7 +9,7 @@ PID = "C11"
 RULE = ("non-mutating operations (| & - ^ ~, `in` for points / curves / shapes incl. Connected-in-Simple, ==, float, "
         "IntegrateShape.polynomial, deepcopy) on operands of all kinds: the operation is run once to count its N internal "
         "calls into the package, then re-run from a fresh state with a BaseException raised inside the k-th call, for k "
-        "evenly spread over 1..N (quick: <= 40 per case; thorough: <= 160) plus the first call of every distinct internal function; cheap queries (point / float / in / ==) on cold unbounded or holed operands with EVERY internal call as a crash point; afterwards every operand must denote exactly "
+        "evenly spread over 1..N (quick: <= 40 per case; thorough: <= 160) plus the first call of every distinct internal function; curved operators on operands far from unit size (crash points spread over the crossing search); cheap queries (point / float / in / ==) on cold unbounded or holed operands with EVERY internal call as a crash point; afterwards every operand must denote exactly "
         "the region it denoted before (same kind, same curves up to inserted collinear vertices, same orientation) and "
         "answer area / containment / float(curve) as before; plus the invalid-argument matrix of move/scale/rotate x all "
         "kinds; non-trivial = the crash index is neither the first nor the last call; distinct = SHA-1")
@@ -38,6 +38,10 @@ def cases(ctx):
         env = OC.gen_env(rng, 2, R=rng.choice([5, 8]), kinds=("U", "C", "U", "D"))
         if env is not None:
             yield {"a": env[0], "b": env[1], "op": ["pt", "jfloat", "in", "=="][i % 4], "all_points": True}
+    # curved operands far from unit size (a circle of radius 0.02 / 20 against a square): crash points spread over the
+    # (long) crossing search
+    for i in range(ctx.n(3, 18)):
+        yield {"curvedop": [0.02, 20.0, 0.003, 150.0][i % 4], "nd": rng.choice([4, 8]), "op": "&|-"[i % 3]}
     kinds = [G.simple_shape(rng, R=6, bounded=True), G.holed_shape(rng, R=8), G.disjoint_shape(rng, R=6)]
     bads = [("move", ("1", "2")), ("move", (None, 1)), ("move", ([1], 2)), ("scale", (2, "3")), ("scale", ("2", 3)),
             ("scale", (None, 1)), ("scale", (2, [1])), ("scale", ("a", 1)), ("rot", ("1",)), ("rot", (None,)), ("rot", ([1],)),
@@ -49,6 +53,44 @@ def cases(ctx):
 
 def nontrivial(case):
     return "op" in case
+
+
+def _curved_state(S, r):
+    b = S.box()
+    pts = [(0.0, 0.0), (0.5 * r, 0.2 * r), (1.2 * r, 0.3 * r), (3 * r, 3 * r), (0.99 * r * 0.7, 0.99 * r * 0.7)]
+    return {"area": float(S), "box": [float(b.lowpt[0]), float(b.lowpt[1]), float(b.toppt[0]), float(b.toppt[1])],
+            "mem": [bool(S.contains_point(p, True)) for p in pts], "signs": [float(j) > 0 for j in S.jordans]}
+
+
+def _curved_close(a, b, r):
+    # the in-place split of a curved boundary may move it within the library's own tolerance (C15: 1e-6)
+    return (abs(a["area"] - b["area"]) <= 1e-6 * 6.3 * r + 1e-12 and a["mem"] == b["mem"] and a["signs"] == b["signs"]
+            and all(abs(x - y) <= 1e-6 * max(1.0, r) for x, y in zip(a["box"], b["box"])))
+
+
+def _curvedop(ctx, case):
+    fails = []
+    r, nd, op = case["curvedop"], case["nd"], case["op"]
+    mk = lambda: (I.Primitive.circle(r, (0.0, 0.0), nd), I.Primitive.square(1.7 * r, (0.8 * r, 0.3 * r)))
+    f = lambda A, B: {"&": lambda: A & B, "|": lambda: A | B, "-": lambda: A - B}[op]
+    A, B = mk()
+    ref = (_curved_state(A, r), _curved_state(B, r))
+    base = I.outcome(lambda: CR.count_calls(f(A, B)))
+    ctx.count("curved op:" + op)
+    if base[0] != "ok":
+        return [Fail(kind="O", what="curved operator raised", impl=base)]
+    N = base[1]
+    npts = ctx.n(14, 60)
+    for k in sorted(set(1 + (N - 1) * i // npts for i in range(npts + 1))):
+        A, B = mk()
+        res = CR.run_with_fault(f(A, B), k)
+        ctx.count("injected" if res[0] == "injected" else "completed")
+        for name, X, want in (("first", A, ref[0]), ("second", B, ref[1])):
+            got = I.outcome(lambda: _curved_state(X, r))
+            if got[0] != "ok" or not _curved_close(got[1], want, r):
+                return [Fail(kind="O", what="%s operand of a curved %s changed by a call interrupted at internal call %d of %d (%s)" % (name, op, k, N, res[-1]),
+                             impl=str(got)[:300], expected=str(want)[:300])]
+    return fails
 
 
 def _op(case, A, B):
@@ -94,6 +136,8 @@ def check(ctx, case):
         if I.shape_data(S) != before:
             fails.append(Fail(kind="O", what="%s%r raised but changed the shape" % (k, args), impl=r))
         return fails
+    if "curvedop" in case:
+        return _curvedop(ctx, case)
     a, b, op = case["a"], case["b"], case["op"]
     ctx.count("op:" + op)
     A, B = I.mk_shape(a), I.mk_shape(b)
